@@ -231,11 +231,17 @@ impl<M: ConvexCellMarker> Iterator for ConvexCellDecomposition<'_, M> {
     }
 }
 
-pub(crate) trait ConvexCellMarker: Clone + Send + Sync + Default {}
+/// Marker for the state of a [`ConvexCell`]: with or without stored face information.
+///
+/// This trait appears in the signatures of the (public) integral traits, so it has to be
+/// nameable by downstream crates that implement their own integrals.
+pub trait ConvexCellMarker: Clone + Send + Sync + Default {}
 
+/// Marker: the [`ConvexCell`] has no face information stored (and can still be clipped).
 #[derive(Copy, Clone, Default)]
 pub struct WithoutFaces;
 impl ConvexCellMarker for WithoutFaces {}
+/// Marker: the [`ConvexCell`] has its face information stored.
 #[derive(Copy, Clone, Default)]
 pub struct WithFaces;
 impl ConvexCellMarker for WithFaces {}
